@@ -53,7 +53,7 @@ PROPS = {
     ),
     "C16": dict(
         level="exploration",
-        rule="Message.Answer over the header space: all 256 flag bytes x the 16 boundary identifier pairs {0,1,2^31,2^32-1}^2 plus random pairs, commands/applications of every dictionary context plus undefined ones, result codes 0 / 2xxx / 3xxx / 5xxx / random; every answer is serialised and checked field by field by the reference decoder. CEA (success and every error class) and DWA produced by the state machine, and the transport stream of replies on the in-memory SCTP association (streams 0..15 and 65535; several DWRs with different flag bytes on different streams of one state machine; an answer written late from another goroutine after the reader moved on, incl. one that is resumed after a temporary transport error), are checked by the same mirror oracle. distinct_nontrivial counts distinct (identifier class, R, P, result-code-zero) classes and (source, stream) classes.",
+        rule="Message.Answer over the header space: all 256 flag bytes x the 16 boundary identifier pairs {0,1,2^31,2^32-1}^2 plus random pairs, commands/applications of every dictionary context plus undefined ones, result codes 0 / 2xxx / 3xxx / 5xxx / random; every answer is serialised and checked field by field by the reference decoder. CEA (success and every error class) and DWA produced by the state machine, and the transport stream of replies on the in-memory SCTP association (streams 0..15 and 65535; several DWRs with different flag bytes on different streams of one state machine; an answer written late from another goroutine after the reader moved on, incl. one that is resumed after a temporary transport error), are checked by the same mirror oracle. Suite 'concurrent-answers': 2..16 requests on different streams answered at the same moment from goroutines of their own (WriteTo / WriteToWithRetry), six rounds per case: each answer on the stream of its request. Thorough: every (CER, DWR, application) stream triple. distinct_nontrivial counts distinct (identifier class, R, P, result-code-zero) classes and (source, stream) classes.",
         runs=dict(quick=[plain("TestC16", 8), race("TestC16Stream", 4)], thorough=[plain("TestC16", 16, 3000), race("TestC16Stream", 8, 3000)]),
         floor=dict(quick=2000, thorough=30000),
         need_events=["answers_checked", "stream_answers_checked"],
@@ -61,7 +61,7 @@ PROPS = {
     ),
     "C04": dict(
         level="exploration",
-        rule="message bodies assembled from raw (code, flags, vendor, declared length, payload) records under the generated and the default dictionary: fixed-width types with payloads of every length 0..20, Address payloads of every family class x length 0..20, string types and unknown codes whose payloads are runs of valid AVP images, grouped codes nested to depth 5 (plus chains 6..100 deep with a good or bad record at the bottom, and payloads of 65 527 .. 196 608 bytes whose length needs all 24 bits), and one injected inconsistent length in a third of the cases (declared < 8, V flag with declared < 12, declared beyond / short of the actual bytes, 0xFFFFFF, length counting the padding). The reference framer walks the same bytes by declared length rounded up to 4, recursing where the dictionary says Grouped; the library's AVP list (count, order, code, flags, vendor, Length, payload where observable) must equal it, and mis-framed bodies must be rejected. distinct_nontrivial counts distinct (dictionary, record type, payload length / family class, depth) and (injection kind, outcome) classes.",
+        rule="message bodies assembled from raw (code, flags, vendor, declared length, payload) records under the generated and the default dictionary: fixed-width types with payloads of every length 0..20, Address payloads of every family class x length 0..20, string types and unknown codes whose payloads are runs of valid AVP images, grouped codes nested to depth 5 (plus chains 6..100 deep with a good or bad record at the bottom, and payloads of 65 527 .. 196 608 bytes whose length needs all 24 bits), and one injected inconsistent length in a third of the cases (declared < 8, V flag with declared < 12, declared beyond / short of the actual bytes, 0xFFFFFF, length counting the padding). The reference framer walks the same bytes by declared length rounded up to 4, recursing where the dictionary says Grouped; the library's AVP list (count, order, code, flags, vendor, Length, payload where observable) must equal it, and mis-framed bodies must be rejected. Suite 'delivery': well-framed bodies read (a) through a transport that reports one temporary or timeout error after any number of bytes and then goes on (the read must fail or report exactly the walk's AVPs - never AVPs made of bytes from further on), (b) by 2..4 goroutines at the same time through readers that yield between fragments, a quarter of the cases after the process has read a body above 64 KiB (pooled read buffers must not be shared). distinct_nontrivial counts distinct (dictionary, record type, payload length / family class, depth) and (injection kind, outcome) classes.",
         runs=dict(quick=[plain("TestC04", 8), race("TestC04", 2)], thorough=[plain("TestC04", 16, 3000), race("TestC04", 4, 3000)]),
         floor=dict(quick=50000, thorough=1000000),
         need_events=["wellframed_accepted_equal", "ref_misframed", "groups_direct"],
@@ -69,7 +69,7 @@ PROPS = {
     ),
     "C05": dict(
         level="exploration",
-        rule="sequences of 1..8 numbered messages with body sizes from {0,12,100,1000,1004,1008,1024,1028,4076,4096,65000} (below/at/above the 1 KiB pooled buffer and the 4 KiB bufio buffer) are concatenated and delivered to ReadMessage over a plain fragmenting reader (byte-exact consumption counter), over bufio, to a real connection (diam.NewConn over the in-memory transport; thorough: loopback TCP), to 2..4 connections reading at the same time with their fragments interleaved, and to a server with a read timeout where one pause exceeds the timeout inside a header / inside a body / between messages (incl. a message whose bytes from offset 16 on are themselves a well-formed message): every 1-cut and 2-cut and every truncation point for short streams, random cut sets incl. all-1-byte reads and random truncation for long ones, every declared length 0..19 followed by more data, and one body above the 64 KiB growth step of the body reader (65 532 .. 200 000 bytes) placed first, in the middle or last among small messages. distinct_nontrivial counts distinct (stream shape, leading body sizes / message count / fragment count / declared length) classes.",
+        rule="sequences of 1..8 numbered messages with body sizes from {0,12,100,1000,1004,1008,1024,1028,4076,4096,65000} (below/at/above the 1 KiB pooled buffer and the 4 KiB bufio buffer) are concatenated and delivered to ReadMessage over a plain fragmenting reader (byte-exact consumption counter), over bufio, to a real connection (diam.NewConn over the in-memory transport; thorough: loopback TCP), to 2..4 connections reading at the same time with their fragments interleaved, and to a server with a read timeout where one pause exceeds the timeout inside a header / inside a body / between messages (incl. a message whose bytes from offset 16 on are themselves a well-formed message): every 1-cut and 2-cut and every truncation point for short streams, random cut sets incl. all-1-byte reads and random truncation for long ones, every declared length 0..19 followed by more data, and one body above the 64 KiB growth step of the body reader (65 532 .. 200 000 bytes) placed first, in the middle or last among small messages. The large body is one AVP or ~65..200 AVPs of 1008 bytes, and half of those streams end inside it - on an AVP boundary of the body or anywhere. Several connections reading at the same time (fragments of a few dozen bytes or of several KiB), half of them after their handlers requested CloseNotify (bytes then pass through the notifier's pipe): every connection's handler must see exactly its own messages. distinct_nontrivial counts distinct (stream shape, leading body sizes / message count / fragment count / declared length) classes.",
         runs=dict(quick=[plain("TestC05", 8), race("TestC05", 2, env={"VERIF_C05_RACE": 1})], thorough=[plain("TestC05", 16, 3000), race("TestC05", 4, 3000)]),
         floor=dict(quick=3000, thorough=100000),
         need_events=["streams_checked", "short_lengths_rejected", "conn_streams"],
@@ -77,7 +77,7 @@ PROPS = {
     ),
     "C06": dict(
         level="exploration",
-        rule="histories 'read M1; snapshot; read M2..Mk; compare': M1 is drawn over the data types that could be views into the input (Address incl. vendor-specific, IPv4, IPv6, unknown AVPs with and without vendor, OctetString, groups nested to depth 3 containing them), body below and above the 1 KiB pooled buffer; the retained message may carry a v4-mapped IPv6 address or lack the padding of its last AVP (non-canonical form); M2..Mk have the same layout with different bytes and are read - and written out again, as a relay does - on the same reader, another reader, another goroutine, or concurrently with a goroutine that keeps re-rendering M1 (race build: any write into memory reachable from a returned message is a reported data race); plus a handler on a real connection that keeps every message and re-renders it after the rest arrived. GC is disabled during plain-build histories so that pooled buffers are really reused. distinct_nontrivial counts distinct (data type, depth, big, mode) classes.",
+        rule="histories 'read M1; snapshot; read M2..Mk; compare': M1 is drawn over the data types that could be views into the input (Address incl. vendor-specific, IPv4, IPv6, unknown AVPs with and without vendor, OctetString, groups nested to depth 3 containing them), body below and above the 1 KiB pooled buffer; the retained message may carry a v4-mapped IPv6 address or lack the padding of its last AVP (non-canonical form); M2..Mk have the same layout with different bytes and are read - and written out again, as a relay does - on the same reader, another reader, another goroutine, or concurrently with a goroutine that keeps re-rendering M1 (race build: any write into memory reachable from a returned message is a reported data race); plus a handler on a real connection that keeps every message and re-renders it after the rest arrived. GC is disabled during plain-build histories so that pooled buffers are really reused. Suite 'lowered-depth-limit': with the public diam.MaxGroupedAVPDepth lowered to 1..5, chains of groups nested up to limit+3 holding Address / unknown / OctetString / IPv4 AVPs: a message the decoder returns (whatever it does at and beyond the limit) must not change after five further reads. distinct_nontrivial counts distinct (data type, depth, big, mode) classes.",
         runs=dict(quick=[plain("TestC06", 8), race("TestC06", 4)], thorough=[plain("TestC06", 16, 3000), race("TestC06", 8, 3000)]),
         floor=dict(quick=10000, thorough=300000),
         need_events=["histories_checked", "conn_histories"],
@@ -85,7 +85,7 @@ PROPS = {
     ),
     "C03": dict(
         level="exploration",
-        rule="inputs: (1) deterministic structured corruptions of valid seed messages drawn under every dictionary context - every length field (message, every AVP at every depth) set to each of {0,1,7,8,9,11,12,13,true-1,true+1,true+4,container,container+1,0xFFFFFF} (+19,20,21 for the message length), truncation at every offset, every flag bit of the header and of every AVP flipped, version byte, V flag with Length 8..11; (2) every dictionary type with payload lengths 0..17 and Address with 7 family classes x lengths 0..20; (3) nest bombs on a geometric depth grid; (3b) headers that claim 70 000 .. 16 MiB with 0 .. 1 MiB of body actually supplied; (4) random strings with plausible headers; (5) the 16 MiB extremes in their own child processes; thorough adds coverage-guided native fuzzing seeded with (1). Every input goes to ReadMessage, DecodeHeader, DecodeAVP, DecodeGrouped; every decoded message is rendered (String, PrettyDump), re-serialised, measured, unmarshalled into six struct shapes incl. the state machine's CER/CEA/DWR/DWA, searched and answered. Oracles: recover() around every call, child exit status with the current input logged before each call, TotalAlloc delta <= 64*len+1MiB per decoding call, goroutine stack capped at that bound with debug.SetMaxStack during decoding. distinct_nontrivial counts distinct corruption classes (kind, depth, value index / type, length).",
+        rule="inputs: (1) deterministic structured corruptions of valid seed messages drawn under every dictionary context - every length field (message, every AVP at every depth) set to each of {0,1,7,8,9,11,12,13,true-1,true+1,true+4,container,container+1,0xFFFFFF} (+19,20,21 for the message length), truncation at every offset, every flag bit of the header and of every AVP flipped, version byte, V flag with Length 8..11; (2) every dictionary type with payload lengths 0..17 and Address with 7 family classes x lengths 0..20; (3) nest bombs on a geometric depth grid; (3b) headers that claim 70 000 .. 16 MiB with 0 .. 1 MiB of body actually supplied; (4) random strings with plausible headers; (5) the 16 MiB extremes in their own child processes; thorough adds coverage-guided native fuzzing seeded with (1). Every input goes to ReadMessage, DecodeHeader, DecodeAVP, DecodeGrouped; every decoded message is rendered (String, PrettyDump), re-serialised, measured, unmarshalled into six struct shapes incl. the state machine's CER/CEA/DWR/DWA, searched and answered. Oracles: recover() around every call, child exit status with the current input logged before each call, TotalAlloc delta <= 64*len+1MiB per decoding call, goroutine stack capped at that bound with debug.SetMaxStack during decoding. Every input is also read through a diam.MultistreamReader (the path ReadMessage takes on SCTP connections) under the same panic and memory oracles, and must be accepted or rejected like the plain read. distinct_nontrivial counts distinct corruption classes (kind, depth, value index / type, length).",
         runs=dict(quick=[plain("TestC03", 8, 900, gomaxprocs=2), plain("TestC03Extremes", 5, 300, gomaxprocs=2), race("TestC03", 4, 900, gomaxprocs=2)],
                   thorough=[plain("TestC03", 16, 3000, gomaxprocs=1), plain("TestC03Extremes", 5, 300, gomaxprocs=2), race("TestC03", 8, 3000, gomaxprocs=2),
                             dict(build="fuzz", test="FuzzC03", iters=3000000, workers=12, timeout=3000)]),
@@ -103,7 +103,7 @@ PROPS = {
     ),
     "C18": dict(
         level="exploration",
-        rule="a hand-written family of 9 struct types against the generated dictionary (one AVP per type name, nested groups, vendor-specific AVPs) and the default dictionary: native Go scalars (string, []byte, int*, uint*, float*, time.Time, net.IP), every datatype type incl. IPv4/IPv6/QoSFilterRule, *T, []T, []*T, [][]byte, AVP / *AVP / []*AVP tagged with grouped and non-grouped AVPs, nested / pointer-to / slice-of / anonymous / embedded structs, omitempty on every kind next to a field without it, embedded structs that are not the first field; struct types generated with reflect.StructOf from the AVP names that resolve differently for different applications, used for several applications in both orders; values drawn with zero values, empty (non-nil) slices and nil pointers. Each value is marshalled, the AVP list compared with the list built by hand from the dictionary (code, vendor id, M, V, typed value), unmarshalled directly and after Serialize -> ReadMessage into a fresh value and compared (nil == empty slice, Time by second, floats by bits). distinct_nontrivial counts distinct (struct type, number of AVPs produced) classes.",
+        rule="a hand-written family of 9 struct types against the generated dictionary (one AVP per type name, nested groups, vendor-specific AVPs) and the default dictionary: native Go scalars (string, []byte, int*, uint*, float*, time.Time, net.IP), every datatype type incl. IPv4/IPv6/QoSFilterRule, *T, []T, []*T, [][]byte, AVP / *AVP / []*AVP tagged with grouped and non-grouped AVPs, nested / pointer-to / slice-of / anonymous / embedded structs, omitempty on every kind next to a field without it, embedded structs that are not the first field; struct types generated with reflect.StructOf from the AVP names that resolve differently for different applications, used for several applications in both orders; values drawn with zero values, empty (non-nil) slices and nil pointers. Each value is marshalled, the AVP list compared with the list built by hand from the dictionary (code, vendor id, M, V, typed value), unmarshalled directly and after Serialize -> ReadMessage into a fresh value and compared (nil == empty slice, Time by second, floats by bits). Suite 'after-failed-load': the same shapes against a private parser before and after a Load that restates the generated dictionary and then fails on an unknown data type (what marshalled before must marshal and round-trip after). distinct_nontrivial counts distinct (struct type, number of AVPs produced) classes.",
         runs=dict(quick=[plain("TestC18", 8), plain("TestC18Apps", 4)], thorough=[plain("TestC18", 16, 3000), plain("TestC18Apps", 8)]),
         floor=dict(quick=30000, thorough=1000000),
         need_events=["roundtrips", "avps_compared", "app_marshals"],
@@ -111,7 +111,7 @@ PROPS = {
     ),
     "C07": dict(
         level="fault_enumeration",
-        rule="(a) W in {1,2,3,8,32} goroutines each write numbered messages through one of three entry points (WriteTo of a fresh message, WriteToStream on stream 0 like an answer, WriteToStreamWithRetry on another stream) (sizes 60..20000 bytes, below and above the 1 KiB serialisation buffer and the 4 KiB write buffer) to one diam.Conn over an in-memory transport that stalls at a pseudo-random byte position inside two thirds of its Write calls; the transport's byte log is framed by the reference codec and checked offline: only whole messages, each successful write exactly once, fillers intact, per-writer order; run on the plain scheduler (GOMAXPROCS 16 and 2) and under the race detector; a third of the runs use a transport whose Write is not atomic per call (200-byte chunks, other writers may get in between), and a further suite writes over a real loopback TCP socket. (b) every script of up to 3 (thorough 4) outcomes (k bytes accepted, temporary error) with k in {0,1,19,20,21,len-1}, ended by success or a permanent error, x retry budgets {temps-1, temps, temps+1}, for WriteToWithRetry on a plain io.Writer, through a diam.Conn with a 44-byte and a 5000-byte message (and through the SCTP backend): bytes received must be exactly the accepted prefixes of the remaining bytes, never a byte range twice, n = bytes accepted, error class as scripted. distinct_nontrivial counts distinct writer counts, interleaving fingerprints (hash of the writer order on the wire mod 4096) and (path, temps, budget, ending) classes.",
+        rule="(a) W in {1,2,3,8,32} goroutines each write numbered messages through one of three entry points (WriteTo of a fresh message, WriteToStream on stream 0 like an answer, WriteToStreamWithRetry on another stream) (sizes 60..20000 bytes, below and above the 1 KiB serialisation buffer and the 4 KiB write buffer) to one diam.Conn over an in-memory transport that stalls at a pseudo-random byte position inside two thirds of its Write calls; the transport's byte log is framed by the reference codec and checked offline: only whole messages, each successful write exactly once, fillers intact, per-writer order; run on the plain scheduler (GOMAXPROCS 16 and 2) and under the race detector; a third of the runs use a transport whose Write is not atomic per call (200-byte chunks, other writers may get in between), and a further suite writes over a real loopback TCP socket. (b) every script of up to 3 (thorough 4) outcomes (k bytes accepted, temporary error) with k in {0,1,19,20,21,len-1}, ended by success or a permanent error, x retry budgets {temps-1, temps, temps+1}, for WriteToWithRetry on a plain io.Writer, through a diam.Conn with a 44-byte and a 5000-byte message (and through the SCTP backend): bytes received must be exactly the accepted prefixes of the remaining bytes, never a byte range twice, n = bytes accepted, error class as scripted. A quarter of the concurrent-writer runs write on a connection accepted by a Server with ReadTimeout/WriteTimeout configured, mostly with messages of 20..68 KB. distinct_nontrivial counts distinct writer counts, interleaving fingerprints (hash of the writer order on the wire mod 4096) and (path, temps, budget, ending) classes.",
         runs=dict(quick=[plain("TestC07", 8), plain("TestC07", 2, gomaxprocs=2, env={"VERIF_C07_PART": "a"}), race("TestC07", 4)],
                   thorough=[plain("TestC07", 16, 3000), plain("TestC07", 4, 3000, gomaxprocs=2), race("TestC07", 8, 3000)]),
         floor=dict(quick=500, thorough=10000),
@@ -120,7 +120,7 @@ PROPS = {
     ),
     "C08": dict(
         level="exploration",
-        rule="scenarios inside testing/synctest bubbles (virtual clock, quiescence detection): K in {1,3,5} connections accepted by Server.Serve over a scripted listener or wrapped with diam.NewConn, the handler being a plain function or a shared ServeMux with handlers registered by short name for three commands, each connection receiving 1..12 (a quarter of the scenarios: 33..122) numbered requests as one burst, one byte at a time, or as 37-byte fragments interleaved across the connections; handlers return at once, sleep (virtual time), or one handler blocks until the scenario releases it. Online monitor per connection: the message handed to the handler is byte for byte the one sent on that connection, in-flight counter at handler entry must be 0 and the sequence number must be previous+1; with one handler held, every other connection must have all its messages dispatched at quiescence and the held connection none beyond the held one. distinct_nontrivial counts distinct (K, accepted/dialled, arrival pattern, handler kind, mux, long burst) classes and distinct interleaving fingerprints (hash of the order of handler entries across connections, mod 4096).",
+        rule="scenarios inside testing/synctest bubbles (virtual clock, quiescence detection): K in {1,3,5} connections accepted by Server.Serve over a scripted listener or wrapped with diam.NewConn, the handler being a plain function or a shared ServeMux with handlers registered by short name for three commands, each connection receiving 1..12 (a quarter of the scenarios: 33..122) numbered requests as one burst, one byte at a time, or as 37-byte fragments interleaved across the connections; handlers return at once, sleep (virtual time), or one handler blocks until the scenario releases it. Online monitor per connection: the message handed to the handler is byte for byte the one sent on that connection, in-flight counter at handler entry must be 0 and the sequence number must be previous+1; with one handler held, every other connection must have all its messages dispatched at quiescence and the held connection none beyond the held one. A third of the scenarios start after earlier events in the life of the server / mux: a connection whose TLS handshake failed, a connection whose handler panicked followed by a handler registration on the shared mux. distinct_nontrivial counts distinct (K, accepted/dialled, arrival pattern, handler kind, mux, long burst) classes and distinct interleaving fingerprints (hash of the order of handler entries across connections, mod 4096).",
         runs=dict(quick=[race("TestC08", 8)], thorough=[race("TestC08", 16, 3000), plain("TestC08", 8, 3000)]),
         floor=dict(quick=400, thorough=20000),
         need_events=["handler_invocations", "blocked_handler_scenarios"],
@@ -136,7 +136,7 @@ PROPS = {
     ),
     "C11": dict(
         level="exploration",
-        rule="end to end through Server + StateMachine over the in-memory transport inside synctest bubbles: the exhaustive product of Origin-Host {absent,present} x Origin-Realm {absent,present} x Inband-Security-Id {absent,0,1} x every sequence of length 0..3 (thorough 0..4) over 13 application AVPs {Acct 3, Acct 4 (wrong type), Acct 999, Acct relay, Auth 4, Auth 3 (wrong type), Auth 999, Auth relay, VS{vendor,Auth 4}, VS{vendor,Auth 999}, VS{vendor,Acct 3}, VS{vendor only}, VS{Auth 999,Auth 4}} with the in-band AVP placed at varying positions, rotating 0/1/2 configured host addresses, IPv4/IPv6 local endpoint and zero identifiers; then random multisets up to 12; then 2 x 24 scenarios with four peers on one state machine in every order, each from another local endpoint (IPv4 / IPv6) and with other applications, every connection's metadata re-read after each later handshake; and (own process) a local dictionary that declares one application id with two types. CER and CEA are built / parsed by the reference codec; the acceptance predicate and the shared application set are computed from the dictionary XML by the harness; a gated probe handler reads the connection metadata. distinct_nontrivial counts distinct (host, realm, in-band, number of application AVPs) classes.",
+        rule="end to end through Server + StateMachine over the in-memory transport inside synctest bubbles: the exhaustive product of Origin-Host {absent,present} x Origin-Realm {absent,present} x Inband-Security-Id {absent,0,1} x every sequence of length 0..3 (thorough 0..4) over 13 application AVPs {Acct 3, Acct 4 (wrong type), Acct 999, Acct relay, Auth 4, Auth 3 (wrong type), Auth 999, Auth relay, VS{vendor,Auth 4}, VS{vendor,Auth 999}, VS{vendor,Acct 3}, VS{vendor only}, VS{Auth 999,Auth 4}} with the in-band AVP placed at varying positions, rotating 0/1/2 configured host addresses, IPv4/IPv6 local endpoint and zero identifiers; then random multisets up to 12; then 2 x 24 scenarios with four peers on one state machine in every order, each from another local endpoint (IPv4 / IPv6) and with other applications, every connection's metadata re-read after each later handshake; and (own process) a local dictionary that declares one application id with two types. Also: the first 2..4 handshakes of a fresh state machine arriving at the same moment (every CEA complete); the configured address given through the deprecated singular Settings.HostIPAddress; (own process) a CER naming the application of a dictionary whose load failed part-way (accepted => advertised). CER and CEA are built / parsed by the reference codec; the acceptance predicate and the shared application set are computed from the dictionary XML by the harness; a gated probe handler reads the connection metadata. distinct_nontrivial counts distinct (host, realm, in-band, number of application AVPs) classes.",
         runs=dict(quick=[race("TestC11", 12), race("TestC11Dict", 2)], thorough=[race("TestC11", 16, 6000), race("TestC11Dict", 2)]),
         floor=dict(quick=20000, thorough=300000),
         need_events=["accepted", "rejected"],
@@ -152,7 +152,7 @@ PROPS = {
     ),
     "C12": dict(
         level="fault_enumeration",
-        rule="sm.Client.NewConn over the in-memory transport against scripted peers under synctest's virtual clock: the product of MaxRetransmits N in {0..3} x RetransmitInterval {1 s, 2.5 s} x the CER index k in {never, 1..N+2} that gets the reply x reply kind {success CEA sharing an advertised application, failing result code, no Result-Code, no Origin-Host, success without application, success with an application unknown to the dictionary (plain and inside a vendor-specific group after the Vendor-Id), disconnect} x reply delay {0, interval/2, interval-1ms}; transports with back-pressure where the Write of a CER returns 0.5 / 1.5 / 3 intervals after the peer saw the bytes and the success CEA arrives meanwhile or shortly after; every successful script is continued with every sequence of 0..3 extra CEAs over {duplicate success, late failure, malformed} and then an application answer; the same client dialling a second peer while the first peer repeats its CEA into that handshake; client configurations rotate over 0..3 advertised application kinds, 0/1/2 configured addresses and IPv4/IPv6 local endpoints. Oracle: CER count <= N+1, byte-identical, Write entries >= interval apart (virtual time), identity / addresses / applications as configured; dial outcome and error class as scripted; transport closed iff failure; after success close count 0 and the answer dispatched exactly once; no reader panic in the log; no goroutine left at the end of the bubble. distinct_nontrivial counts distinct (N, k, reply kind, number of extra CEAs) classes.",
+        rule="sm.Client.NewConn over the in-memory transport against scripted peers under synctest's virtual clock: the product of MaxRetransmits N in {0..3} x RetransmitInterval {1 s, 2.5 s} x the CER index k in {never, 1..N+2} that gets the reply x reply kind {success CEA sharing an advertised application, failing result code, no Result-Code, no Origin-Host, success without application, success with an application unknown to the dictionary (plain and inside a vendor-specific group after the Vendor-Id), disconnect} x reply delay {0, interval/2, interval-1ms}; transports with back-pressure where the Write of a CER returns 0.5 / 1.5 / 3 intervals after the peer saw the bytes and the success CEA arrives meanwhile or shortly after; every successful script is continued with every sequence of 0..3 extra CEAs over {duplicate success, late failure, malformed} and then an application answer; the same client dialling a second peer while the first peer repeats its CEA into that handshake; client configurations rotate over 0..3 advertised application kinds, 0/1/2 configured addresses and IPv4/IPv6 local endpoints. Oracle: CER count <= N+1, byte-identical, Write entries >= interval apart (virtual time), identity / addresses / applications as configured; dial outcome and error class as scripted; transport closed iff failure; after success close count 0 and the answer dispatched exactly once; no reader panic in the log; no goroutine left at the end of the bubble. The configured address is also given through the deprecated singular Settings.HostIPAddress. distinct_nontrivial counts distinct (N, k, reply kind, number of extra CEAs) classes.",
         runs=dict(quick=[race("TestC12", 12)], thorough=[race("TestC12", 16, 6000), plain("TestC12", 8, 3000)]),
         floor=dict(quick=2000, thorough=4000),
         need_events=["successful_handshakes", "failed_handshakes", "extra_ceas"],
@@ -160,7 +160,7 @@ PROPS = {
     ),
     "C13": dict(
         level="fault_enumeration",
-        rule="client role under synctest's virtual clock, after a scripted handshake with EnableWatchdog: the product of MaxRetransmits N in {0..3} x (WatchdogInterval, RetransmitInterval) in {(5 s,1 s),(2 s,3 s)} x transport schedule {answer queued at once, the client's Write returns 10 ms after the peer saw the bytes with the answer arriving in between, answer 1 ms before the retransmit timer} x peer pattern {answer every DWR for 30 periods, stop after the n-th round n=0..3, answer only the j-th transmission of every round j=0..N+1, answer with a failing result code}. Oracle over the transport's write log in virtual time: first DWR >= WatchdogInterval after the handshake, every round >= WatchdogInterval after the previous one ended, retransmissions byte-identical, >= RetransmitInterval apart, exactly N of them when unanswered, then Close (>= RetransmitInterval later) and no further writes or library goroutines; with every DWR answered in time the close count stays 0 and at least floor(H/(W+round))-1 rounds happen within the horizon H (bounded progress). Server role: 2..6 handshaken connections on one state machine pipelining 40 DWRs each at the same moment (race detector + per-answer mirror check); DWRs with boundary identifiers, with/without Origin-State-Id and P bit to a handshaken state machine: exactly one DWA each, Result-Code 2001, local identity, mirrored header. distinct_nontrivial counts distinct (N, pattern, schedule, W>R) classes.",
+        rule="client role under synctest's virtual clock, after a scripted handshake with EnableWatchdog: the product of MaxRetransmits N in {0..3} x (WatchdogInterval, RetransmitInterval) in {(5 s,1 s),(2 s,3 s)} x transport schedule {answer queued at once, the client's Write returns 10 ms after the peer saw the bytes with the answer arriving in between, answer 1 ms before the retransmit timer} x peer pattern {answer every DWR for 30 periods, stop after the n-th round n=0..3, answer only the j-th transmission of every round j=0..N+1, answer with a failing result code}. Oracle over the transport's write log in virtual time: first DWR >= WatchdogInterval after the handshake, every round >= WatchdogInterval after the previous one ended, retransmissions byte-identical, >= RetransmitInterval apart, exactly N of them when unanswered, then Close (>= RetransmitInterval later) and no further writes or library goroutines; with every DWR answered in time the close count stays 0 and at least floor(H/(W+round))-1 rounds happen within the horizon H (bounded progress). Server role: 2..6 handshaken connections on one state machine pipelining 40 DWRs each at the same moment (race detector + per-answer mirror check); DWRs with boundary identifiers, with/without Origin-State-Id and P bit to a handshaken state machine: exactly one DWA each, Result-Code 2001, local identity, mirrored header. With Settings.OriginStateID configured the DWA must carry it (and must not carry one otherwise). distinct_nontrivial counts distinct (N, pattern, schedule, W>R) classes.",
         runs=dict(quick=[race("TestC13", 12)], thorough=[race("TestC13", 16, 6000), plain("TestC13", 8, 3000)]),
         floor=dict(quick=800, thorough=8000),
         need_events=["silent_peer_detected", "responsive_peer_spared", "dwas_checked"],
@@ -168,7 +168,7 @@ PROPS = {
     ),
     "C14": dict(
         level="fault_enumeration",
-        rule="every ordering pre + termination + post with pre over {F deliver a fragment (fragments cut three numbered messages inside message boundaries), h arm CloseNotify in the next handler invocation, o CloseNotify from another goroutine while the reader is blocked} with at most 4 F and 3 notifier requests in total, termination in {peer EOF, transport read error, undecodable message, undecodable message with more data in flight behind it, local Close, EOF / read error returned by the same Read that returns the last bytes of a message, and a handler panic}, optionally with one write that meets a temporary transport error and is resumed (the connection stays up: no channel may be closed), post = CloseNotify requested after the termination (0..3 times): each ordering is executed inside a synctest bubble with quiescence between events, so the ordering is the schedule; the same orderings are also fired without quiescence points (racing) under the race detector; plus a real-scheduler stress suite (no bubble) in which four goroutines request CloseNotify with a swept delay exactly while the connection terminates (100 k rounds per quick run; a round that does not finish is decided by the goroutine dump); plus sm.Client with the watchdog enabled (the watchdog goroutine is itself a CloseNotify user) x 5 terminations x 0..2 completed watchdog exchanges. Oracle: no obtained channel closed at any quiescent point before the termination, every obtained channel closed at quiescence after it, no 'panic serving' in the captured log, handler log = the messages completely delivered before the termination in order, transport closed, and no goroutine with library frames left (goroutine dump at quiescence, after advancing virtual time past the watchdog interval). distinct_nontrivial counts distinct (termination, #F, #h, #o, #t) classes.",
+        rule="every ordering pre + termination + post with pre over {F deliver a fragment (fragments cut three numbered messages inside message boundaries), h arm CloseNotify in the next handler invocation, o CloseNotify from another goroutine while the reader is blocked} with at most 4 F and 3 notifier requests in total, termination in {peer EOF, transport read error, undecodable message, undecodable message with more data in flight behind it, local Close, EOF / read error returned by the same Read that returns the last bytes of a message, and a handler panic}, optionally with one write that meets a temporary transport error and is resumed (the connection stays up: no channel may be closed), post = CloseNotify requested after the termination (0..3 times): each ordering is executed inside a synctest bubble with quiescence between events, so the ordering is the schedule; the same orderings are also fired without quiescence points (racing) under the race detector; plus a real-scheduler stress suite (no bubble) in which four goroutines request CloseNotify with a swept delay exactly while the connection terminates (100 k rounds per quick run; a round that does not finish is decided by the goroutine dump); plus sm.Client with the watchdog enabled (the watchdog goroutine is itself a CloseNotify user) x 5 terminations x 0..2 completed watchdog exchanges. Oracle: no obtained channel closed at any quiescent point before the termination, every obtained channel closed at quiescence after it, no 'panic serving' in the captured log, handler log = the messages completely delivered before the termination in order, transport closed, and no goroutine with library frames left (goroutine dump at quiescence, after advancing virtual time past the watchdog interval). Terminations include a read error that calls itself temporary. Suite 'tls-client-handshake-failure': a TLS client connection (tls.Client over the in-memory transport, as DialTLS creates it) whose handshake fails by garbage / EOF / reset, CloseNotify requested before, during or after the failure. distinct_nontrivial counts distinct (termination, #F, #h, #o, #t) classes.",
         runs=dict(quick=[race("TestC14", 12)], thorough=[race("TestC14", 16, 6000), plain("TestC14", 8, 3000)]),
         floor=dict(quick=4000, thorough=50000),
         need_events=["orderings", "channels_checked", "client_watchdog_scenarios"],
